@@ -17,6 +17,7 @@ const (
 	PoolLIFO    PoolMode = iota // deterministic LIFO, no choice point
 	PoolDeviate                 // alternative 0 = LIFO, every other distinct answer costs one deviation
 	PoolFree                    // every distinct answer is a free choice
+	PoolDirty                   // alternative 0 = a fresh object; every distinct recycled object costs one deviation
 )
 
 // OrderMode says how range-over-map orders are enumerated.
@@ -96,7 +97,11 @@ func Install(x *mc.X, pm PoolMode, om OrderMode) {
 			seen[k] = true
 			cands = append(cands, cand{i, k})
 		}
-		cands = append(cands, cand{-1, "fresh"})
+		if pm == PoolDirty {
+			cands = append([]cand{{-1, "fresh"}}, cands...)
+		} else {
+			cands = append(cands, cand{-1, "fresh"})
+		}
 		if n == 0 {
 			return -1
 		}
